@@ -652,3 +652,26 @@ def g_rotmap(rng, level=0, n_random=150):
 def g_nstate(rng, level=0, n_random=8):
     for N in range(0, n_random):
         yield {'N': N}
+
+
+@gen(PA + 'PauliList.rotate_by#mask_state')
+def g_rot_mask_state(rng, level=0, n_random=200):
+    pa, _ = _pc()
+    for k in range(n_random):
+        N = 1 + k % 4
+        mask = _rand_mask(rng, N, k // 4)
+        n = int(mask.sum())
+        yield {'self': _rand_state(rng, N), 'generator': pa.Pauli(bits(rng, 2 * n), int(2 * rng.integers(0, 2))), 'mask': mask}
+
+
+@gen(CI + 'CliffordGate.forward#generator_local_state')
+@gen(CI + 'CliffordGate.backward#generator_local_state')
+def g_gate_gen_local_state(rng, level=0, n_random=150):
+    import pyclifford.circuit as ci
+    pa, _ = _pc()
+    for _ in range(n_random):
+        N = int(rng.integers(2, 5))
+        q = _local_qubits(rng, N)
+        g = ci.CliffordGate(*q)
+        g.generator = pa.Pauli(bits(rng, 2 * len(q)), int(2 * rng.integers(0, 2)))
+        yield {'self': g, 'obj': _rand_state(rng, N)}
